@@ -13,6 +13,17 @@ NOTE_COMMON = ("Trusted: Lean 4.33 kernel; axioms propext/Classical.choice/Quot.
                "double arithmetic is exact (float residue, DESIGN §3.1/§6).")
 
 CLAIMS = {
+    "C17": dict(
+        category="proof", design_ref="§7 C17",
+        technique="Lean 4 theorems over a control-flow model of load_dump.py's file handling (all entries x targets x fault plans x stream lengths x consumer scripts, by induction) + exhaustive fault-injection correspondence on the real calls",
+        text=("Kernel-checked theorems handles_closed (for EVERY entry point, target kind, format, fault stage, failing document index k, number of documents n and consumer "
+              "script: once the call has returned or raised, or the multi-document iterator is exhausted/failed/closed, every handle the library opened is closed and the "
+              "caller's stream is not), call_settled, caller_stream_never_closed, iterator_settled, consumer_closed, abandoned_iterator, unstarted_iterator, trace_faithful "
+              "over a control-flow Model of _open_file_polymorph and the load/dump entry points (the load_all generator as an explicit state machine). The Model is tied to "
+              "the code by comparing the exact open/close event trace of the REAL calls (builtins.open wrapped; faults injected at each of 7 stages by monkey-patching plus "
+              "natural faults; multi-document streams with the fault at every position; iterators exhausted, closed or abandoned) with the Model's, over the complete finite "
+              "space (10k cases quick, 24k thorough), and the property is evaluated on the real file objects."),
+        note=NOTE_COMMON + " CPython with/finally/contextmanager/generator-close semantics are trusted; an abandoned, un-closed iterator is outside the property."),
     "C02": dict(
         category="proof", design_ref="§7 C02",
         technique="Lean 4 theorems relating the model of Graph.fromdict to a declarative statement of the fill-in rules (precedence, inference, symmetric expansion, stable sort, explicit=omitted spellings) + differential correspondence incl. an independent Python computation of the expected resolution",
